@@ -41,8 +41,7 @@ Proof.
   rewrite C'. reflexivity.
 Qed.
 
-Lemma c_rem_fail : forall k o s s' e, c_rem k o s = (s', Fail e) ->
-  s' = fst (coll_touch s) \/ s' = coll_event (fst (coll_touch s)).
+Lemma c_rem_fail : forall k o s s' e, c_rem k o s = (s', Fail e) -> s' = fst (coll_touch s).
 Proof.
   intros k o s s' e. unfold c_rem. destruct (coll_touch s) as [s1 ok]. cbn [fst].
   destruct (negb ok); [intros H; inversion H; auto|].
@@ -89,11 +88,10 @@ Proof.
 Qed.
 
 Theorem failed_op_keeps_changes : forall k o s s' e, wf s -> step k o s = (s', Fail e) ->
-  o <> DelX -> coll_deleted s = false ->
   changes (hist_x s') = changes (hist_x s) /\ changes (hist_b s') = changes (hist_b s) /\
   changes (hist_c s') = changes (hist_c s).
 Proof.
-  intros k o s s' e W H ND G.
+  intros k o s s' e W H.
   assert (S' : s' = fst (step k o s)) by (rewrite H; reflexivity).
   destruct (dict_op o) eqn:DO.
   { assert (FR : c_frame s s').
@@ -106,8 +104,11 @@ Proof.
     destruct (dict_fail k o s s' e H DO) as [-> | ->]; [exact E0|].
     rewrite changes_before_pop. exact E0. }
   pose proof (c_other_nofail k o s s' e W H) as NF.
-  destruct o; try congruence; try contradiction; try discriminate DO.
+  destruct o; try contradiction; try discriminate DO.
   - (* SetX never fails *) cbn in H. discriminate.
+  - (* DelX: the AttributeError is raised before anything is recorded *)
+    cbn [step] in H. unfold del_x in H.
+    destruct (negb (is_some (x_d s)) && negb (expired s) && negb (x_e s)); inversion H; subst; auto.
   - (* GetX *) subst s'. cbn [step]. rewrite read_fst. destruct (get_x_frame P_OFF s) as (_ & X & B & C).
     split; [apply changes_loadX; exact X|split; [apply changes_keepB; exact B|apply changes_keepC; exact C]].
   - (* SetB *) cbn in H. unfold set_b in H. destruct (get_b P_NO_FETCH_NO_INIT s). discriminate.
@@ -121,25 +122,24 @@ Proof.
     split; [rewrite S'; apply changes_loadX; exact X|split; [rewrite S'; apply changes_keepB; exact B|]].
     destruct (coll_touch_frame s) as (_ & _ & _ & LC).
     pose proof (changes_loadC s _ W LC) as E0.
-    destruct (c_rem_fail k o s s' e H) as [-> | ->]; [exact E0|].
-    rewrite changes_coll_event; [exact E0|]. eapply coll_deleted_loadC; eauto.
+    rewrite (c_rem_fail k o s s' e H). exact E0.
   - (* Flush *) cbn [step] in H. unfold flush in H.
     destruct (persistent s && negb (modified s)); [discriminate|].
-    destruct (negb (persistent s)); [discriminate|].
-    destruct (negb (is_nohist (x_c s)) && negb (is_some (x_d s))); [|discriminate].
-    inversion H; subst. auto.
+    destruct (negb (persistent s)); discriminate.
   - (* Expire *) cbn [step] in H. unfold expire in H. destruct (negb (persistent s)); [|discriminate].
     inversion H; subst. auto.
 Qed.
 
-(* the defect: a failing [del a.x] on a new object reports "added [None]" *)
-Theorem failed_del_changes_history :
+(* the former defect (repaired in 09dadee): a failing [del a.x] on a new object leaves it untouched *)
+Theorem failed_del_keeps_state :
   let s := init ONew 0 0 [] in
-  wf s /\ coll_deleted s = false /\
-  snd (step KList DelX s) = Fail AttributeError /\
-  hist_x s = blank /\ hist_x (fst (step KList DelX s)) = ([0], [], []) /\
-  modified (fst (step KList DelX s)) = true.
-Proof. split; [apply init_wf|]. vm_compute. auto 6. Qed.
+  wf s /\ step KList DelX s = (s, Fail AttributeError) /\
+  hist_x (fst (step KList DelX s)) = blank /\ modified (fst (step KList DelX s)) = false.
+Proof. split; [apply init_wf|]. vm_compute. auto. Qed.
+
+(* a flush never raises *)
+Theorem flush_never_fails : forall s, failed (snd (flush s)) = false.
+Proof. intros s. unfold flush. brk; reflexivity. Qed.
 
 (* ---------- the model never takes an "unreachable" branch ---------- *)
 Theorem step_never_unreachable : forall k o s, wf s -> snd (step k o s) <> Fail Unreachable.
